@@ -3,6 +3,7 @@ CONSTANTS
   Locked = TRUE
   Bodies <- BodiesAll
   Modes <- AllModes
+  Seconds <- NoSecond
   TickMs <- Ticks2
   MaxTicks = 8
   MaxPre = 0
